@@ -46,6 +46,12 @@ def run(ctx, prop):
                                    "%s pattern %r at %s: %s" % (case["id"], case["pattern"], reason[1], reason[0])):
                 bad_idx.add(f["index"])
     recs = vlib.read_ndjson(rec)
+    n_cut = sum(1 for x in recs if x.get("mode") == "cut")
+    ctx.cov["cut_records"] = n_cut
+    ctx.cov["cut_records_discarded_by_premise"] = ctx.cov.get("discarded", 0)
+    if prop == "C02" and n_cut and ctx.cov.get("discarded", 0) > 0.5 * n_cut:
+        raise vlib.ToolError("C02: more than half of the cut patterns were discarded by the premise (%d of %d): the judgement would be vacuous"
+                             % (ctx.cov.get("discarded", 0), n_cut))
     shapes = set()
     nontrivial = 0
     matched = 0
